@@ -2194,6 +2194,7 @@ void SoPlexBase<R>::addColRational(const mpq_t* obj, const mpq_t* lower, const m
       return;
 
    _rationalLP->addCol(obj, lower, colValues, colIndices, colSize, upper);
+   _rationalLUSolver.clear();
    int i = numColsRational() - 1;
    _completeRangeTypesRational();
 
@@ -2220,6 +2221,7 @@ void SoPlexBase<R>::addColsRational(const mpq_t* obj, const mpq_t* lower, const 
 
    _rationalLP->addCols(obj, lower, colValues, colIndices, colStarts, colLengths, numCols, numValues,
                         upper);
+   _rationalLUSolver.clear();
    _completeRangeTypesRational();
 
    if(intParam(SoPlexBase<R>::SYNCMODE) == SYNCMODE_AUTO)
@@ -2794,6 +2796,7 @@ void SoPlexBase<R>::addRowRational(const LPRowRational& lprow)
       return;
 
    _rationalLP->addRow(lprow);
+   _rationalLUSolver.clear();
    _completeRangeTypesRational();
 
    if(intParam(SoPlexBase<R>::SYNCMODE) == SYNCMODE_AUTO)
@@ -2816,6 +2819,7 @@ void SoPlexBase<R>::addRowRational(const mpq_t* lhs, const mpq_t* rowValues, con
       return;
 
    _rationalLP->addRow(lhs, rowValues, rowIndices, rowSize, rhs);
+   _rationalLUSolver.clear();
    _completeRangeTypesRational();
 
    int i = numRowsRational() - 1;
@@ -2840,6 +2844,7 @@ void SoPlexBase<R>::addRowsRational(const mpq_t* lhs, const mpq_t* rowValues, co
       return;
 
    _rationalLP->addRows(lhs, rowValues, rowIndices, rowStarts, rowLengths, numRows, numValues, rhs);
+   _rationalLUSolver.clear();
    _completeRangeTypesRational();
 
    if(intParam(SoPlexBase<R>::SYNCMODE) == SYNCMODE_AUTO)
@@ -2868,6 +2873,7 @@ void SoPlexBase<R>::addRowsRational(const LPRowSetRational& lprowset)
       return;
 
    _rationalLP->addRows(lprowset);
+   _rationalLUSolver.clear();
    _completeRangeTypesRational();
 
    if(intParam(SoPlexBase<R>::SYNCMODE) == SYNCMODE_AUTO)
@@ -2887,6 +2893,7 @@ void SoPlexBase<R>::addColRational(const LPColRational& lpcol)
       return;
 
    _rationalLP->addCol(lpcol);
+   _rationalLUSolver.clear();
    _completeRangeTypesRational();
 
    if(intParam(SoPlexBase<R>::SYNCMODE) == SYNCMODE_AUTO)
@@ -2909,6 +2916,7 @@ void SoPlexBase<R>::addColsRational(const LPColSetRational& lpcolset)
       return;
 
    _rationalLP->addCols(lpcolset);
+   _rationalLUSolver.clear();
    _completeRangeTypesRational();
 
    if(intParam(SoPlexBase<R>::SYNCMODE) == SYNCMODE_AUTO)
@@ -2929,6 +2937,7 @@ void SoPlexBase<R>::changeRowRational(int i, const LPRowRational& lprow)
       return;
 
    _rationalLP->changeRow(i, lprow);
+   _rationalLUSolver.clear();
    _rowTypes[i] = _rangeTypeRational(lprow.lhs(), lprow.rhs());
    _completeRangeTypesRational();
 
@@ -3156,6 +3165,7 @@ void SoPlexBase<R>::changeColRational(int i, const LPColRational& lpcol)
       return;
 
    _rationalLP->changeCol(i, lpcol);
+   _rationalLUSolver.clear();
    _colTypes[i] = _rangeTypeRational(lpcol.lower(), lpcol.upper());
    _completeRangeTypesRational();
 
@@ -3441,6 +3451,7 @@ void SoPlexBase<R>::changeElementRational(int i, int j, const Rational& val)
       return;
 
    _rationalLP->changeElement(i, j, val);
+   _rationalLUSolver.clear();
 
    if(intParam(SoPlexBase<R>::SYNCMODE) == SYNCMODE_AUTO)
       _changeElementReal(i, j, R(val));
@@ -3463,6 +3474,7 @@ void SoPlexBase<R>::changeElementRational(int i, int j, const mpq_t* val)
    SPX_MSG_ERROR(std::cerr << "ERROR: rational solve without Boost not defined!" << std::endl;)
 #endif
    _rationalLP->changeElement(i, j, val);
+   _rationalLUSolver.clear();
 
    if(intParam(SoPlexBase<R>::SYNCMODE) == SYNCMODE_AUTO)
       _changeElementReal(i, j, mpq_get_d(*val));
@@ -3482,6 +3494,7 @@ void SoPlexBase<R>::removeRowRational(int i)
       return;
 
    _rationalLP->removeRow(i);
+   _rationalLUSolver.clear();
 
    // only swap elements if not the last one was removed
    if(i < _rationalLP->nRows())
@@ -3513,6 +3526,7 @@ void SoPlexBase<R>::removeRowsRational(int perm[])
 
    const int oldsize = numRowsRational();
    _rationalLP->removeRows(perm);
+   _rationalLUSolver.clear();
 
    for(int i = 0; i < oldsize; i++)
    {
@@ -3586,6 +3600,7 @@ void SoPlexBase<R>::removeColRational(int i)
       return;
 
    _rationalLP->removeCol(i);
+   _rationalLUSolver.clear();
 
    // only swap elements if not the last one was removed
    if(i < _rationalLP->nCols())
@@ -3617,6 +3632,7 @@ void SoPlexBase<R>::removeColsRational(int perm[])
 
    const int oldsize = numColsRational();
    _rationalLP->removeCols(perm);
+   _rationalLUSolver.clear();
 
    for(int i = 0; i < oldsize; i++)
    {
